@@ -45,7 +45,6 @@ class Live(object):
         self.cb = b.callbacks
         self.conf = b.conf
         b.conf.supybot.reply.withNickPrefix.setValue(False)
-        b.conf.supybot.reply.whenNotCommand.setValue(True)
         bot.register_welcome(b)
         try:
             b.ircdb.users.getUserId('own!er@vt.host')
@@ -111,6 +110,7 @@ class Live(object):
         c.commands.nested.maximum.setValue(w['maxNesting'])
         c.reply.maximumLength.setValue(w['maxLen'])
         c.reply.error.detailed.setValue(w['detailed'])
+        c.reply.whenNotCommand.setValue(w.get('whenNotCommand', True))
         c.commands.disabled.setValue(w['disabled'])
         self.cb.Commands._disabled = self.cb.DisabledCommands()
         dp = c.commands.defaultPlugins
@@ -143,6 +143,8 @@ class Live(object):
             L.append('default\t%s\t%s' % (wire.enc(name), wire.enc(child())))
         L.append('important\t' + wire.enc_list(sorted(dp.importantPlugins())))
         L.append('dconf\t' + wire.enc_list(sorted(self.conf.supybot.commands.disabled())))
+        order = [cb.name() for cb in self.b.irc.callbacks if hasattr(cb, 'invalidCommand')]
+        L.append('invcfg\t%d\t%s\t%s' % (w.get('whenNotCommand', True), wire.enc(self.conf.supybot.commands.nested.brackets()), wire.enc_list(order)))
         L.append('cfg\t%d\t%d\t%d\t%s\t%s\t0' % (w['maxNesting'], w['maxLen'], w['detailed'], wire.enc(self.error_text),
                                                 wire.enc('IndexError: list index out of range')))
         return L
@@ -284,6 +286,8 @@ def canon_model(o):
         return 'nomsg'
     if f[1] == 'error':
         s = wire.dec(f[2])
+        if INVALID1.match('Error: ' + s) or INVALID2.match('Error: ' + s):
+            return 'invalid'
         return ('error\t' + s) if s else 'nomsg'
     if f[1] == 'silent':
         return 'nomsg'
@@ -291,8 +295,6 @@ def canon_model(o):
         return 'tooDeep'
     if f[1] == 'ambiguous':
         return 'ambiguous\t%s\t%s' % (' '.join(wire.dec_list(f[2])), ','.join(sorted(wire.dec_list(f[3]))))
-    if f[1] == 'invalid':
-        return 'invalid'
     return 'unknown\t' + o
 
 def is_foreign(call):
@@ -369,7 +371,7 @@ QUALIFIED_N = [['vtordera', 'nrep'], ['vtorderb', 'nrep'], ['vtorderc', 'nrep'],
                ['vtordera', 'iuni'], ['iuni'], ['vtorderb', 'igno'], ['utilities', 'ignore']]
 BARE = ['rone', 'rtwo', 'both', 'nrep', 'erro', 'sile', 'igno', 'jtag', 'xval', 'yerr', 'zarg', 'qsil', 'vtorderb', 'vtordera', 'vtorderc',
         'rbee', 'rcee', 'rdis', 'grp', 'rga', 'nga', 'sga', 'rgc', 'rsee', 'runi', 'nuni', 'suni', 'iuni', 'juni', 'xuni', 'euni', 'yuni', 'zuni',
-        'quni', 'nosuch', 'echo', 'ignore', 'utilities', 'r-one', 'R_two', 'Both', 'misc', 'list', 'help', 'owner', 'rone_', 'vtordera-']
+        'quni', 'nosuch', 'ainvr', 'ainvn', 'ainve', 'ainvs', 'ainvx', 'ainvy', 'ainvi', 'ainvo', 'binvr', 'binve', 'binvs', 'binvx', 'binvn', 'cinvsr', 'cinvxr', 'cinvrn', 'cinvss', 'cinvxx', 'cinvye', 'cinvsn', 'echo', 'ignore', 'utilities', 'r-one', 'R_two', 'Both', 'misc', 'list', 'help', 'owner', 'rone_', 'vtordera-']
 LITS = ['a', 'b c', 'x', '', '[', ']', 'é', 'rone', '|', '"q"', 'long-ish literal text', '7']
 
 def command_kind(cmd):
@@ -436,7 +438,7 @@ def gen_deep(r, maxn):
 
 def gen_world(r, k):
     if k == 0:
-        return dict(maxNesting=10, maxLen=131072, detailed=False, disabled=[], defaults={}, important=['Admin', 'Channel', 'Config', 'Misc', 'Owner', 'User'])
+        return dict(whenNotCommand=True, maxNesting=10, maxLen=131072, detailed=False, disabled=[], defaults={}, important=['Admin', 'Channel', 'Config', 'Misc', 'Owner', 'User'])
     dis = []
     for _ in range(r.choice([0, 0, 1, 2, 4])):
         c = r.choice(['rdis', 'both', 'rone', 'rtwo', 'nrep', 'rbee', 'rga', 'vtorderb', 'erro', 'list', 'rcee'])
@@ -445,7 +447,7 @@ def gen_world(r, k):
     for _ in range(r.choice([0, 0, 1, 2, 3])):
         defaults[r.choice(['rone', 'both', 'nrep', 'igno', 'xval', 'jtag', 'sile', 'erro', 'rdis'])] = r.choice(['VtOrderA', 'VtOrderB', 'VtOrderC', 'vtorderb', 'Misc', 'NoSuch', ''])
     imp = r.choice([['Admin', 'Channel', 'Config', 'Misc', 'Owner', 'User']] * 2 + [[], ['VtOrderA'], ['VtOrderB', 'Misc'], ['vtorder_a', 'VtOrderC'], ['VtOrderA', 'VtOrderB', 'VtOrderC']])
-    return dict(maxNesting=r.choice([10, 10, 1, 2, 3, 5]), maxLen=r.choice([131072, 131072, 131072, 40, 12, 3]),
+    return dict(whenNotCommand=r.random() < 0.6, maxNesting=r.choice([10, 10, 1, 2, 3, 5]), maxLen=r.choice([131072, 131072, 131072, 40, 12, 3]),
                 detailed=r.random() < 0.3, disabled=dis, defaults=defaults, important=imp)
 
 # --------------------------------------------------------------------------------------------
@@ -524,10 +526,20 @@ def oracle_order(tokens, res, world):
     if len(set(ran)) != len(ran):
         return False, 'a sub-command ran more than once: ids in call order %r' % (ran,)
     # nodes without an id (empty brackets ...) never run a command; compare on the ids that exist
-    want = [i for i in ids if i is not None]
+    # a sub-command answered by an invalidCommand handler (first word ainv… / binv… / cinv…) runs no plugin
+    # command: it never shows in the call log, evaluation goes on (or stops) as the handler decides
+    handled = set(node_id(n) for (_, n) in postorder(tokens)
+                  if n and isinstance(n[0], str) and re.match(r'^[abc]inv', n[0]))
+    want = [i for i in ids if i is not None and i not in handled]
     if any(i is None for i in ran):
         return True, ''        # a call without id: the id token was consumed or popped; order not decidable here
-    if ran != want[:len(ran)]:
+    if not world.get('whenNotCommand', True):
+        # an unknown sub-command is not an error then: inside brackets its own text comes back as its reply and
+        # evaluation goes on without it — the calls are a sub-sequence of the post-order (order kept, none twice)
+        it = iter(want)
+        if not all(any(x == y for y in it) for x in ran):
+            return False, 'calls are not a sub-sequence of the left-to-right post-order: ran %r, post-order %r' % (ran, want)
+    elif ran != want[:len(ran)]:
         return False, 'calls are not a prefix of the left-to-right post-order: ran %r, post-order %r' % (ran, want)
     if world['maxNesting']:
         for i in ran:
@@ -867,7 +879,7 @@ def run(ctx):
                             assumptions=['command bodies use their irc object at most once (reply / noReply / error / nothing / raise)',
                                          'command and plugin names are ASCII (canonicalName case folding)',
                                          'threaded commands are joined before the log is read (scheduling against other traffic is not modelled)',
-                                         'supybot.reply.whenNotCommand is on (an unknown command is an error, not silence)'],
+                                         'invalidCommand handlers other than Misc\'s are abstract (the synthetic ones of VtOrderA/B answer by a behaviour letter)'],
                             t0=ctx.t0)
 
 def replay(ctx, path):
